@@ -52,10 +52,25 @@ def _pg():
         from pgradd.Error import UnitsError
         _m.update(eval_qty=eval_qty, Quantity=Quantity, ArrayQuantity=ArrayQuantity, UnitsError=UnitsError,
                   GenericQuantity=GenericQuantity, units={d[0]: eval_qty(d[1]) for d in DIMS})
-        for d in DIMS:   # the construction must be SI-coherent, else the model's magnitudes are not the real ones
+        # the construction must be SI-coherent, else the model's magnitudes are not the real ones: a unit string that does not
+        # evaluate to its SI definition is reported as such (once per case) and nothing else is judged in this process
+        _m['broken'] = []
+        for d in DIMS:
             u = _m['units'][d[0]]
-            assert u.value == 1.0 and tuple(int(x) for x in u.units.exps) == d[2], d
+            try:
+                ok = u.value == 1.0 and tuple(float(x) for x in u.units.exps) == tuple(float(x) for x in d[2])
+            except Exception:
+                ok = False
+            if not ok:
+                _m['broken'].append((d[1], d[2], repr(u)))
     return _m
+
+
+def operands_unusable(ctx):
+    m = _pg()
+    for text, dim, got in m['broken']:
+        ctx.fail('operand-unit-string-evaluates-wrongly:%s' % text, 'eval_qty(%r) = %s, its SI definition is 1 with exponents %s' % (text, got, list(dim)))
+    return bool(m['broken'])
 
 
 def build(spec):
@@ -65,7 +80,7 @@ def build(spec):
     if cls in ('number', 'zero'):
         if isinstance(mag, list):
             # a plain list / ndarray: a dimensionless operand that is not a bare zero
-            real = np.array(mag, dtype=float) if spec.get('as') == 'ndarray' else list(mag)
+            real = np.array(mag, dtype=float) if spec.get('as') == 'ndarray' else (tuple(mag) if spec.get('as') == 'tuple' else list(mag))
             return real, (np.array(mag, dtype=float), ZERO7, False)
         return mag, (mag, ZERO7, False)
     u = m['units'][cls]
@@ -411,6 +426,9 @@ def run_construction(ctx, case):
 
 
 def check_any(ctx, case):
+    if operands_unusable(ctx):
+        ctx.case(nontrivial=True, key=['unusable', str(case)[:80]], sample=dict(note='operand construction broken'))
+        return
     if case['kind'] == 'lookalike':
         return check_lookalike(ctx, case)
     if case['kind'] == 'construction':
@@ -442,7 +460,8 @@ def operand(draw, allow_array=True, force_dim=None):
             vals = [float(draw(mags())) for _ in range(n)]
             if all(v == 0 for v in vals):
                 vals[0] = 3.0
-            return dict(cls=cls, mag=vals, **({'as': 'ndarray'} if draw(st.booleans()) else {}))
+            form = draw(st.sampled_from([None, 'ndarray', 'tuple']))
+            return dict(cls=cls, mag=vals, **({'as': form} if form else {}))
         return dict(cls=cls, mag=draw(mags().filter(lambda v: v != 0)))
     if allow_array and draw(st.integers(0, 3)) == 0:
         n = draw(st.integers(1, 4))
